@@ -26,13 +26,13 @@ Definition replace_quotes (mm : mmatch) : M str :=
   | Some content =>
       if is_multi_paragraph content then ret (m_text mm)
       else
-        match group mm 1, group mm 4 with
-        | Some prefix, Some suffix =>
+        match group mm 1 with
+        | Some prefix =>
             match double with
-            | Some d => ret (prefix ++ [ldq] ++ d ++ [rdq] ++ suffix)
-            | None => ret (prefix ++ [lsq] ++ content ++ [rsq] ++ suffix)
+            | Some d => ret (prefix ++ [ldq] ++ d ++ [rdq])
+            | None => ret (prefix ++ [lsq] ++ content ++ [rsq])
             end
-        | _, _ => throw TypeError
+        | _ => throw TypeError
         end
   end.
 
